@@ -4630,8 +4630,8 @@ Ops!(
     b"y*y*m*"     , [0x02, 0x8C        ], X, VEX_OP | AUTO_VEXL | PREF_66, AVX2;
 ]
 "vpmaskmovq" = [
-    b"m*y*y*"     , [0x02, 0x8E        ], X, VEX_OP | AUTO_VEXL | ENC_VM | PREF_66, AVX2;
-    b"y*y*m*"     , [0x02, 0x8C        ], X, VEX_OP | AUTO_VEXL | PREF_66, AVX2;
+    b"m*y*y*"     , [0x02, 0x8E        ], X, VEX_OP | AUTO_VEXL | WITH_REXW | ENC_VM | PREF_66, AVX2;
+    b"y*y*m*"     , [0x02, 0x8C        ], X, VEX_OP | AUTO_VEXL | WITH_REXW | PREF_66, AVX2;
 ]
 "vpmaxsb" = [
     b"y*y*w*"     , [0x02, 0x3C        ], X, VEX_OP | AUTO_VEXL | PREF_66, AVX;
